@@ -28,16 +28,27 @@ RULE = ("cases = (alphabet, reference string, k, insertion, deletion, substituti
         "reference string of length ≤3 over {a,b} (and ≤2 over {a}), k ∈ {-1,0,1,2}, all 8 flag combinations; then "
         "random alphabets (1–4 symbols), reference strings of length ≤7 with repeated letters / periodic / single "
         "letter, k ≤ 4; every case evaluates all words up to a length bound through the real accepts_input "
-        "against an independent DP; a case is non-trivial when the reference string is non-empty and 1 ≤ k and k "
+        "against an independent DP; for k ≤ 3, |ref| ≤ 4, |Σ| ≤ 3 additionally against an OPERATIONAL oracle (BFS over "
+        "single insert/delete/replace steps from the reference string: every reached word must be accepted, every "
+        "accepted word up to the bound must be reached); every case also tests 3 words obtained by j random enabled "
+        "single edits for each j ∈ {k−1, k, k+1} (j ≤ k: must be accepted by construction; j = k+1: DP decides) so that "
+        "long references are probed at the boundary; a case is non-trivial when the reference string is non-empty and 1 ≤ k and k "
         "is smaller than the reference length + 2; distinct = distinct argument tuples")
 ASSUMPTIONS = [
     "input_symbols is a set of single characters; the reference string is a str; max_edit_distance is an int",
-    "the theorem assumes the reference string is over the alphabet (otherwise the constructor raises InvalidSymbolError — modelled and compared)",
+    "the language clause is about reference strings over the alphabet; for any other reference string (k ≥ 0, some kind "
+    "enabled) the constructor raises InvalidSymbolError — theorem C16_ref_outside_alphabet, modelled, compared and "
+    "evaluated on the real code",
+    "no \"\" in input_symbols: the model cannot represent it (labels are Option α, ε = none). Since /repo 07f4843 the "
+    "constructor refuses it with InvalidSymbolError (probed on every run). Before that fix, replay: "
+    "NFA.edit_distance({\"\", \"a\"}, \"aa\", 1, insertion=False, deletion=False, substitution=True) accepted \"a\" "
+    "(add_any_transition added an ε-edge: a deletion although deletion was disabled)",
 ]
 EXPLANATION = ("Theorem C16_edit_distance states that the model NFA accepts w iff w is over Σ and some alignment "
                "with at most k enabled edits turns the reference string into w; this run ties the model to the "
                "code by exact comparison of the constructed automaton and evaluates the property on the real "
-               "result against an independent DP.")
+               "result against an independent DP and against an operational BFS over single edits "
+               "(theorem C16_edit_distance_operational: the two readings are proved equivalent).")
 
 
 def dp_within(ref: str, w: str, k: int, ins: bool, dele: bool, sub: bool) -> bool:
@@ -60,6 +71,68 @@ def dp_within(ref: str, w: str, k: int, ins: bool, dele: bool, sub: bool) -> boo
             if ins and j < m:
                 d[i][j + 1] = min(d[i][j + 1], c + 1)
     return d[n][m] <= k
+
+
+def single_edits(s: str, alpha, ins: bool, dele: bool, sub: bool):
+    """All strings one enabled edit away from s: one symbol of the alphabet inserted at any position,
+    one symbol deleted, or one symbol replaced by a symbol of the alphabet (the OPERATIONAL reading of the
+    property; does not share anything with the alignment DP or with the automaton)."""
+    out = set()
+    for i in range(len(s) + 1):
+        if ins:
+            for c in alpha:
+                out.add(s[:i] + c + s[i:])
+        if i < len(s):
+            if dele:
+                out.add(s[:i] + s[i + 1:])
+            if sub:
+                for c in alpha:
+                    out.add(s[:i] + c + s[i + 1:])
+    return out
+
+
+def reach_within(ref: str, alpha, k: int, ins: bool, dele: bool, sub: bool, cap: int = 60000):
+    """Every string obtained from ref by a sequence of at most k single enabled edits (BFS), or None if
+    more than `cap` strings."""
+    reach = {ref}
+    frontier = {ref}
+    for _ in range(k):
+        nxt = set()
+        for s in frontier:
+            nxt |= single_edits(s, alpha, ins, dele, sub)
+        frontier = nxt - reach
+        reach |= frontier
+        if len(reach) > cap:
+            return None
+        if not frontier:
+            break
+    return reach
+
+
+def random_edits(rng, ref: str, alpha, j: int, ins: bool, dele: bool, sub: bool):
+    """Apply j random enabled single edits to ref (None if no edit is applicable at some point)."""
+    s = ref
+    for _ in range(j):
+        kinds = []
+        if ins and alpha:
+            kinds.append("i")
+        if dele and s:
+            kinds.append("d")
+        if sub and s and alpha:
+            kinds.append("s")
+        if not kinds:
+            return None
+        kind = rng.choice(kinds)
+        if kind == "i":
+            i = rng.randint(0, len(s))
+            s = s[:i] + rng.choice(alpha) + s[i:]
+        elif kind == "d":
+            i = rng.randrange(len(s))
+            s = s[:i] + s[i + 1:]
+        else:
+            i = rng.randrange(len(s))
+            s = s[:i] + rng.choice(alpha) + s[i + 1:]
+    return s
 
 
 def check_one(ctx: Ctx, sigma, ref: str, k: int, ins: bool, dele: bool, sub: bool, origin: str, max_words: int = 400):
@@ -103,6 +176,53 @@ def check_one(ctx: Ctx, sigma, ref: str, k: int, ins: bool, dele: bool, sub: boo
                                       f"{'within' if exp else 'not within'} {k} enabled edits",
                                       dict(case, failure="language", word=w, result_accepts=got, expected=exp), None)
                         break
+            # --- the operational reading: BFS over single edits from the reference string
+            if k <= 3 and len(ref) <= 4 and len(alpha) <= 3:
+                reach = reach_within(ref, alpha, k, ins, dele, sub)
+                if reach is not None:
+                    ctx.stat("operational_bfs_oracle")
+                    ctx.stat("operational_bfs_words", len(reach))
+                    for w in sorted(reach, key=lambda x: (len(x), x)):     # positive side: complete
+                        if not R.accepts_input(w):
+                            ctx.prop_fail(f"edit_distance({ref!r}, k={k}, ins={ins}, del={dele}, sub={sub}) rejects {w!r}, "
+                                          f"which is reached from the reference string by at most {k} single enabled edits",
+                                          dict(case, failure="language-operational", word=w, result_accepts=False,
+                                               expected=True), None)
+                            break
+                    else:
+                        for w in LR:                                      # negative side: up to the bound
+                            if w not in reach and R.accepts_input(w):
+                                ctx.prop_fail(f"edit_distance({ref!r}, k={k}, ins={ins}, del={dele}, sub={sub}) accepts {w!r}, "
+                                              f"which no sequence of at most {k} single enabled edits produces",
+                                              dict(case, failure="language-operational", word=w, result_accepts=True,
+                                                   expected=False), None)
+                                break
+                    # the two independent oracles (alignment DP, operational BFS) must agree: spec sanity
+                    for w in gen.words_upto(alpha, bound):
+                        if dp_within(ref, w, k, ins, dele, sub) != (w in reach):
+                            ctx.note(f"ORACLES DISAGREE (alignment DP vs operational BFS) on ref={ref!r} k={k} "
+                                     f"flags={(ins, dele, sub)} word={w!r}")
+                            ctx.stat("oracle_disagreement")
+                            break
+            # --- targeted words near the boundary (for long references the enumeration above is far away):
+            # j ∈ {k-1, k, k+1} random enabled single edits applied to the reference string
+            for j in (k - 1, k, k + 1):
+                if j < 0:
+                    continue
+                for _rep in range(3):
+                    w = random_edits(ctx.rng, ref, alpha, j, ins, dele, sub)
+                    if w is None:
+                        break
+                    exp = True if j <= k else dp_within(ref, w, k, ins, dele, sub)
+                    ctx.stat(f"targeted_word_j_minus_k_{j - k}_{'in' if exp else 'out'}")
+                    got = R.accepts_input(w)
+                    if got != exp:
+                        how = (f"was produced by {j} ≤ k single enabled edits" if j <= k else
+                               f"is not within {k} enabled edits (alignment DP; produced by {j} edits)")
+                        ctx.prop_fail(f"edit_distance({ref!r}, k={k}, ins={ins}, del={dele}, sub={sub}) "
+                                      f"{'accepts' if got else 'rejects'} {w!r}, which {how}",
+                                      dict(case, failure="language-targeted", word=w, result_accepts=got, expected=exp), None)
+                        break
             # a word with a foreign symbol is never accepted
             for w in (foreign, ref + foreign, foreign + ref, ref[:1] + foreign + ref[1:]):
                 if R.accepts_input(w):
@@ -111,6 +231,12 @@ def check_one(ctx: Ctx, sigma, ref: str, k: int, ins: bool, dele: bool, sub: boo
                     break
             if call(R.validate)[0] == "err":
                 ctx.prop_fail("edit_distance returned an invalid NFA", dict(case, failure="invalid"), None)
+    else:
+        # reference string outside the alphabet (admissible k and flags): theorem C16_ref_outside_alphabet
+        if res != ("err", "InvalidSymbolError"):
+            ctx.prop_fail(f"edit_distance with reference string {ref!r} not over the alphabet {sorted(sigma)!r} was not "
+                          f"refused with InvalidSymbolError: {res[0]} {res[1] if res[0] == 'err' else ''}",
+                          dict(case, failure="ref outside alphabet not refused"), None)
     nontrivial = in_domain and not should_refuse and len(ref) >= 1 and 1 <= k < len(ref) + 2
     ctx.case((tuple(sorted(sigma)), ref, k, ins, dele, sub) if nontrivial else None)
     ctx.stat(origin)
@@ -130,9 +256,23 @@ def check_one(ctx: Ctx, sigma, ref: str, k: int, ins: bool, dele: bool, sub: boo
 FLAGS = list(itertools.product([False, True], repeat=3))
 
 
+def probe_empty_symbol(ctx: Ctx):
+    """ASSUMPTION 'no "" in input_symbols': refused by the NFA constructor since /repo 07f4843."""
+    r = call(lambda: NFA.edit_distance({"", "a"}, "aa", 1, insertion=False, deletion=False, substitution=True))
+    if r == ("err", "InvalidSymbolError"):
+        ctx.stat("probe_empty_string_symbol_refused")
+    else:
+        ctx.stat("probe_empty_string_symbol_NOT_refused")
+        acc = r[1].accepts_input("a") if r[0] == "ok" else None
+        ctx.note("NFA.edit_distance({'', 'a'}, 'aa', 1, substitution only) is no longer refused "
+                 f"(observed {r[0]} {r[1] if r[0] == 'err' else ''}; accepts 'a' = {acc}): \"\" as an input symbol makes "
+                 "add_any_transition add an ε-edge, i.e. a deletion although deletion is disabled")
+
+
 def run(ctx: Ctx):
     rng = ctx.rng
     thorough = ctx.thorough()
+    probe_empty_symbol(ctx)
     # 1. bounded-exhaustive
     for alpha, maxlen in ((("a", "b"), 3), (("a",), 2), ((), 0)):
         for n in range(maxlen + 1):
